@@ -233,6 +233,20 @@ func checkC14(c *mc.Ctx) {
 				c.Ev.Class("malformed-rejected", 1)
 				continue
 			}
+			// the same descriptor as the LAST one of its loop, with whatever follows the loop behind it (the next entry of the
+			// enclosing table): a body parser that reads ahead finds bytes there, the loop still ends where it says it ends
+			if decl < len(body) {
+				only := ref.Loop12(0xf, raw)
+				buf := append(append([]byte{}, only...), bytes.Repeat([]byte{0x5c}, 300)...)
+				var g2 []*astits.Descriptor
+				var used int
+				var e2 error
+				if p := mc.Catch(func() { g2, used, e2 = astits.VerifParseDescriptors(buf) }); p != nil || e2 != nil || used != len(only) || len(g2) != 1 {
+					c.Rep.Report("malformed-last-descriptor-breaks-the-loop:"+descGens[ti].Name, map[string]any{"kind": "descriptors", "bytes": mc.Hex(buf),
+						"message": fmt.Sprintf("declared length %d (body %d), last descriptor of its loop, 300 bytes of the enclosing table behind the loop: panic=%v err=%v, %d of %d loop bytes consumed, %d descriptors", decl, len(body), p, e2, used, len(only), len(g2))})
+				}
+				c.Ev.Class("malformed-last-in-loop", 1)
+			}
 			last := got[len(got)-1]
 			if len(got) != 2 || last.Tag != 0x52 || last.StreamIdentifier == nil || last.StreamIdentifier.ComponentTag != 0x99 {
 				c.Rep.Report("malformed-shifts-following:"+descGens[ti].Name, map[string]any{"kind": "descriptors", "bytes": mc.Hex(loop),
@@ -242,5 +256,5 @@ func checkC14(c *mc.Ctx) {
 		}
 	}
 	c.Ev.AddScenario(mc.Scenario{Name: "malformed declared lengths", SpaceSize: nm, Executed: nm, Exhaustive: true, Bound: "every tag family x declared length {0,1,half,body-1,body+1,body+3}, sentinel descriptor after it"})
-	c.Ev.Require("tag:VBIData", "tag:Unknown", "tag:UserDefined", "malformed-sentinel-intact", "loop-over-1023-bytes")
+	c.Ev.Require("tag:VBIData", "tag:Unknown", "tag:UserDefined", "malformed-sentinel-intact", "malformed-last-in-loop", "loop-over-1023-bytes")
 }
